@@ -86,7 +86,7 @@ Proof.
   all: try (intros xci xchn Hxc; lookup Hxc; fin_c; fail).
   all: try (intros xci Hxl; fin_c; fail).
   (* SubStart *)
-  - intros xt xo xci [F|Hi]; [discriminate|]. apply is_closed_app; eauto.
+  - intros xt xo xci [F|[F|Hi]]; try discriminate. apply is_closed_app; eauto.
   - intros xci xchn Hc. apply nth_error_app_some in Hc as [Hc|[-> ->]]; cbn [sent_rev recv_rev]; [eauto|].
     destruct (A4 (length (c_chans c))) as [-> ->]; [lia|]. cbn. split; [lia|reflexivity].
   - intros xci Hl. rewrite app_length in Hl. cbn in Hl. cbn [sent_rev recv_rev]. apply A4. lia.
